@@ -378,7 +378,7 @@ def check_layout(case, ctx: Ctx):
             v = exp[r[6]]
             row = [f"junk{k}" for k in range(case["ncols"])]
             if route == "pairs":
-                row[lay["chrom1"]], row[lay["pos1"]], row[lay["chrom2"]], row[lay["pos2"]] = r[0], str(r[1] + 1), r[2], str(r[3] + 1)
+                row[lay["chrom1"]], row[lay["pos1"]], row[lay["chrom2"]], row[lay["pos2"]] = str(r[0]), str(r[1] + 1), str(r[2]), str(r[3] + 1)
                 row[lay["x"]] = str(xv)
                 if v is not None:
                     want.setdefault(v[:2], []).append((1, xv))
@@ -446,7 +446,8 @@ def check_layout(case, ctx: Ctx):
 
 
 CHECKS = {"dump": check_dump, "table": check_table, "roundtrip": check_roundtrip, "layout": check_layout,
-          "cli": c09.check_cli, "cli_load_c05": lambda case, ctx: c05.check_cli_load(dict(case, part="cli_load"), ctx)}
+          "cli": c09.check_cli, "cli_load_c05": lambda case, ctx: c05.check_cli_load(dict(case, part="cli_load"), ctx),
+          "tabix_c05": lambda case, ctx: c05.check_tabix(dict(case, part="tabix"), ctx)}
 
 
 def replay(ctx: Ctx, case):
@@ -466,4 +467,8 @@ def run(ctx: Ctx):
     if not run_given(ctx, "load-shifted", c05.cli_load_cases().filter(lambda c: c["shift"] > 0).map(lambda c: dict(c, part="cli_load_c05", bad=None)),
                      CHECKS["cli_load_c05"], per_shard(ctx, 96 if q else 2000), batch=12):
         return
-    run_given(ctx, "zoomify-spec", c09.cli_cases(), c09.check_cli, per_shard(ctx, 24 if q else 400), batch=6)
+    if not run_given(ctx, "zoomify-spec", c09.cli_cases(), c09.check_cli, per_shard(ctx, 24 if q else 400), batch=6):
+        return
+    # tabix-indexed pairs whose second mate is NOT in the default columns, through `cooler cload tabix -c2 -p2`
+    run_given(ctx, "tabix-layout", c05.tabix_cases().map(lambda c: dict(c, part="tabix_c05", bad_pos2=None, via="cli-p2" if c["via"] == "cli-p2" else "cli")),
+              CHECKS["tabix_c05"], per_shard(ctx, 24 if q else 600), batch=6)
